@@ -1630,6 +1630,14 @@ func c16Corpus() []any {
 		c16Input{Kind: "fetch", Blocks: []c16Blk{mk(5, "00000000000000000000aa05", "p", 3, "t/T", []byte{1}), mk(6, "00000000000000000000bb06", "q", 3, "t/T", []byte{2})},
 			Suffix:  []byte("s"),
 			Queries: []c16Query{{5, []byte("00000000000000000000aa05")}, {5, []byte("00000000000000000000bb06")}, {4, []byte("00000000000000000000aa05")}, {6, []byte("00000000000000000000bb06")}}},
+		// fetch (fixed 6b75a41): a one-block file cut exactly at the end of its 10-byte header ("dbin", version, length 3, "t/T")
+		// holds no block: an error, not (nil, nil)
+		c16Input{Kind: "fetch", Blocks: []c16Blk{mk(5, "00000000000000000000aa05", "p", 3, "t/T", []byte{1}), mk(6, "00000000000000000000bb06", "q", 3, "t/T", []byte{2})},
+			Suffix: []byte("s"), Damage: 1, DamageCut: 10,
+			Queries: []c16Query{{5, []byte("00000000000000000000aa05")}, {6, []byte("00000000000000000000bb06")}}},
+		c16Input{Kind: "fetch", Blocks: []c16Blk{mk(5, "00000000000000000000aa05", "p", 3, "t/T", []byte{1}), mk(6, "00000000000000000000bb06", "q", 3, "t/T", []byte{2})},
+			Suffix: []byte("s"), Damage: 2, DamageCut: 10,
+			Queries: []c16Query{{5, []byte("00000000000000000000aa05")}, {6, []byte("00000000000000000000bb06")}}},
 	}
 	// known finding C16-frame-corruption-alters: the last payload byte changed
 	if file, ok, _ := c16Write([]*pbbstream.Block{two[0].pb(), two[1].pb()}); ok {
